@@ -362,6 +362,22 @@ impl Set {
         th.unpark(active);
     }
 
+    /// Wakes a thread that blocked itself with `rt::block`. What the active
+    /// thread did so far happens-before the woken thread's continuation.
+    pub(crate) fn wake(&mut self, id: Id) {
+        if id == self.active_id() {
+            return;
+        }
+
+        let (active, th) = self.active2_mut(id);
+
+        th.causality.join(&active.causality);
+
+        if th.is_blocked() && !th.parked {
+            th.set_runnable();
+        }
+    }
+
     /// Insert a point of sequential consistency
     /// TODO
     /// - Deprecate SeqCst accesses and allow SeqCst fences only. The semantics of SeqCst accesses
